@@ -390,3 +390,102 @@ def replay_h_subset(detail):
 
 
 KINDS['h_subset'] = replay_h_subset
+
+
+def replay_h_cand(detail):
+    repo.load()
+    import pandas as pd
+    cs = detail['scenario']
+    L, R = scenario.real_frames(cs)
+    cd = cs['cand']
+    cand = pd.DataFrame([list(r) for r in cd['rows']], columns=cd['columns'], index=cd['index'])
+    L0, R0, C0 = L.copy(deep=True), R.copy(deep=True), cand.copy(deep=True)
+    ssj = repo.mod('')
+    lval = dict((r[cs['L']['columns'].index('id')], r[cs['L']['columns'].index('attr')]) for r in cs['L']['rows'])
+    rval = dict((r[cs['R']['columns'].index('id')], r[cs['R']['columns'].index('attr')]) for r in cs['R']['rows'])
+    w = scenario.ConcreteWorld()
+    lines = ['candset:\n%s\nleft:\n%s\nright:\n%s' % (cand.to_string(), L.to_string(), R.to_string())]
+    from py_stringmatching import WhitespaceTokenizer
+    if cs['mode'] == 'matcher':
+        table = {}
+        for lk, rk, v in detail.get('sim_table', []):
+            table[(lval[lk], rval[rk])] = v
+        calls = []
+
+        class Sim(object):
+            def score(self, a, b):
+                ka = ' '.join(a) if isinstance(a, list) else a
+                kb = ' '.join(b) if isinstance(b, list) else b
+                calls.append((a, b))
+                return table.get((ka, kb), 0)
+        sim = Sim()
+        tok = WhitespaceTokenizer(return_set=True) if cs['use_tokenizer'] else None
+        lines.append('apply_matcher(threshold=%r, op=%s, allow_missing=%r, out_sim_score=%r, n_jobs=%r, '
+                     'tokenizer=%r, l_out=%r, r_out=%r); similarity table %r' % (
+                         cs['threshold'], cs['comp_op'], cs['allow_missing'], cs['out_sim_score'],
+                         cs['n_jobs'], bool(tok), cs['l_out_attrs'], cs['r_out_attrs'], detail.get('sim_table')))
+        try:
+            out = ssj.apply_matcher(cand, 'l_id', 'r_id', L, R, 'id', 'id', 'attr', 'attr', tok, sim.score,
+                                    cs['threshold'], cs['comp_op'], cs['allow_missing'], cs['l_out_attrs'],
+                                    cs['r_out_attrs'], 'l_', 'r_', cs['out_sim_score'], cs['n_jobs'], False)
+        except Exception as e:
+            lines.append('raised %s: %s' % (type(e).__name__, e))
+            return True, '\n'.join(lines)
+        header, lo, ro = oracle.expected_header(cs)
+        exp = []
+        for row in cd['rows']:
+            lv, rv = lval[row[1]], rval[row[2]]
+            if w.missing(lv) or w.missing(rv):
+                if not cs['allow_missing']:
+                    continue
+                score = float('nan')
+            else:
+                score = table.get((lv, rv), 0)
+                if not ref.OPS[cs['comp_op']](score, cs['threshold']):
+                    continue
+            lrow = [r for r in cs['L']['rows'] if r[cs['L']['columns'].index('id')] == row[1]][0]
+            rrow = [r for r in cs['R']['rows'] if r[cs['R']['columns'].index('id')] == row[2]][0]
+            e = [row[0], row[1], row[2]] + [lrow[cs['L']['columns'].index(a)] for a in lo] + \
+                [rrow[cs['R']['columns'].index(a)] for a in ro]
+            if cs['out_sim_score']:
+                e.append(score)
+            exp.append(tuple(e))
+        got = oracle.Result.of(out)
+        lines.append('result:\n%s\nexpected rows: %r' % (out.to_string(), exp))
+        bad = (len(cd['rows']) and got.columns != header) or \
+            [tuple(scenario.norm_rows(oracle.Result(got.columns, [r]))[0]) for r in got.rows] != \
+            [tuple(scenario.norm_rows(oracle.Result(header, [r]))[0]) for r in exp]
+    else:
+        drop = dict(((lk, rk), v) for lk, rk, v in detail.get('drop_table', []))
+        if cs['filter'] == 'AnyFilter':
+            fmod = repo.mod('filter.filter')
+
+            class AnyFilter(fmod.Filter):
+                def filter_pair(self_, lv, rv):
+                    for (lk, rk), v in drop.items():
+                        if ref.same_value(lval[lk], lv) and ref.same_value(rval[rk], rv):
+                            return v
+                    return False
+            f = AnyFilter(cs['allow_missing'])
+        else:
+            f = scenario.make_filter(cs, WhitespaceTokenizer(return_set=True))
+        try:
+            out = f.filter_candset(cand, 'l_id', 'r_id', L, R, 'id', 'id', 'attr', 'attr', cs['n_jobs'], False)
+        except Exception as e:
+            lines.append('raised %s: %s' % (type(e).__name__, e))
+            return True, '\n'.join(lines)
+        exp, exp_idx = [], []
+        for row, lab in zip(cd['rows'], cd['index']):
+            if not f.filter_pair(lval[row[1]], rval[row[2]]):
+                exp.append(tuple(row))
+                exp_idx.append(lab)
+        got = oracle.Result.of(out)
+        lines.append('filter_candset result:\n%s\nexpected rows %r with index %r' % (out.to_string(), exp, exp_idx))
+        bad = got.columns != cd['columns'] or [tuple(r) for r in got.rows] != exp or list(got.index) != exp_idx
+    if not _frames_equal(L, L0) or not _frames_equal(R, R0) or not _frames_equal(cand, C0):
+        lines.append('an input frame was modified')
+        bad = True
+    return bool(bad), '\n'.join(lines)
+
+
+KINDS['h_cand'] = replay_h_cand
